@@ -35,10 +35,31 @@ type Gen struct {
 }
 
 func (g *Gen) emit(line string) string {
+	ans := g.emit1(line)
+	// after every mutating op the full observation is compared with the model
+	switch strings.Fields(line)[0] {
+	case "dotx", "play", "playminer", "walk", "reopen":
+		g.emit1("obs")
+	case "confirm", "truncate":
+		g.emit1("ledger")
+	}
+	return ans
+}
+
+func (g *Gen) emit1(line string) string {
 	ans := g.e.exec(line)
-	g.out.Emit(line, ans)
+	g.out.Emit(line, cmpAns(line, ans))
 	g.out.Count(strings.Fields(line)[0] + ":" + strings.SplitN(ans, " ", 2)[0][:min(len(strings.SplitN(ans, " ", 2)[0]), 14)])
 	g.canon = append(g.canon, line)
+	return ans
+}
+
+// cmpAns: oracle-only ops are not compared with the model
+func cmpAns(line, ans string) string {
+	switch strings.Fields(line)[0] {
+	case "verify", "lcheck", "cmpcopy", "replica", "snap", "crashcheck":
+		return "-"
+	}
 	return ans
 }
 
@@ -343,7 +364,7 @@ func (g *Gen) scenario(p *Profile) {
 				ids = append(ids, fmt.Sprint(w.TxByID[string(t.Txid)]))
 			}
 			bi := len(w.Blocks)
-			g.emit(fmt.Sprintf("blk %d pre=%d prop=m0 aw=%d txs=%s", bi, st, len(w.Txs), strings.Join(ids, ",")))
+			g.emit(fmt.Sprintf("blk %d pre=%d prop=m0 aa=%d aw=%d txs=%s", bi, st, w.Award, len(w.Txs), strings.Join(ids, ",")))
 			if g.emit(fmt.Sprintf("confirm %d", bi)) != "fail" {
 				g.confirmed[bi] = true
 				g.emit(fmt.Sprintf("playminer %d", bi))
@@ -451,7 +472,7 @@ func (g *Gen) foreignBlock(fork bool) {
 		}
 	}
 	bi := len(w.Blocks)
-	g.emit(fmt.Sprintf("blk %d pre=%d prop=m1 aw=%d txs=%s", bi, base, len(w.Txs), strings.Join(ids, ",")))
+	g.emit(fmt.Sprintf("blk %d pre=%d prop=m1 aa=%d aw=%d txs=%s", bi, base, w.Award, len(w.Txs), strings.Join(ids, ",")))
 	if g.emit(fmt.Sprintf("confirm %d", bi)) != "fail" {
 		g.confirmed[bi] = true
 	}
@@ -472,9 +493,9 @@ func (g *Gen) badBlock() {
 	switch g.r.Intn(4) {
 	case 0: // unknown parent: build on a block that is never confirmed
 		bi := len(w.Blocks)
-		g.emit(fmt.Sprintf("blk %d pre=%d prop=m1 aw=%d txs=", bi, base, len(w.Txs)))
+		g.emit(fmt.Sprintf("blk %d pre=%d prop=m1 aa=%d aw=%d txs=", bi, base, w.Award, len(w.Txs)))
 		bj := len(w.Blocks)
-		g.emit(fmt.Sprintf("blk %d pre=%d prop=m1 aw=%d txs=", bj, bi, len(w.Txs)))
+		g.emit(fmt.Sprintf("blk %d pre=%d prop=m1 aa=%d aw=%d txs=", bj, bi, w.Award, len(w.Txs)))
 		g.emit(fmt.Sprintf("confirm %d", bj))
 	case 1: // a transaction that is already on the main chain
 		var cands []int
@@ -489,7 +510,7 @@ func (g *Gen) badBlock() {
 		ti := cands[g.r.Intn(len(cands))]
 		bi := len(w.Blocks)
 		e.badBlocks[bi] = true
-		g.emit(fmt.Sprintf("blk %d pre=%d prop=m1 aw=%d txs=%d", bi, base, len(w.Txs), ti))
+		g.emit(fmt.Sprintf("blk %d pre=%d prop=m1 aa=%d aw=%d txs=%d", bi, base, w.Award, len(w.Txs), ti))
 		if g.emit(fmt.Sprintf("confirm %d", bi)) != "fail" {
 			g.confirmed[bi] = true
 			g.syncState()
@@ -514,7 +535,7 @@ func (g *Gen) badBlock() {
 		b := len(w.Txs) - 1
 		bi := len(w.Blocks)
 		e.badBlocks[bi] = true
-		g.emit(fmt.Sprintf("blk %d pre=%d prop=m1 aw=%d txs=%d,%d", bi, base, len(w.Txs), a, b))
+		g.emit(fmt.Sprintf("blk %d pre=%d prop=m1 aa=%d aw=%d txs=%d,%d", bi, base, w.Award, len(w.Txs), a, b))
 		if g.emit(fmt.Sprintf("confirm %d", bi)) != "fail" {
 			g.confirmed[bi] = true
 			g.syncState()
@@ -524,7 +545,7 @@ func (g *Gen) badBlock() {
 		t := &TxInfo{Idx: len(w.Txs), From: "u0", Coinbase: true, Outs: []OutInfo{{Addr: "u0", Amt: big.NewInt(7)}}}
 		g.emit(t.line("xtx", ""))
 		e.badBlocks[bi] = true
-		g.emit(fmt.Sprintf("blk %d pre=%d prop=m1 aw=%d txs=%d", bi, base, len(w.Txs), t.Idx))
+		g.emit(fmt.Sprintf("blk %d pre=%d prop=m1 aa=%d aw=%d txs=%d", bi, base, w.Award, len(w.Txs), t.Idx))
 		if g.emit(fmt.Sprintf("confirm %d", bi)) != "fail" {
 			g.confirmed[bi] = true
 			g.syncState()
